@@ -858,6 +858,56 @@ func run(c *core.Ctx) {
 		pool <- newWorker()
 	}
 
+	// Letter family: case folding must work for EVERY letter, not only for the atoms a/b of the
+	// enumeration (the SimpleFold orbits of k and s contain non-ASCII members: U+212A, U+017F).
+	// For every ASCII letter x: /x/, /[x]/ and next to them /[a-z]+/, /[A-Z]+/ in all four
+	// fold x byte modes, scanned on every single ASCII letter, the non-ASCII orbit members and
+	// all two-letter words over {k,K,s,S}.
+	{
+		var texts []string
+		for ch := 'A'; ch <= 'Z'; ch++ {
+			texts = append(texts, string(ch), string(ch+32))
+		}
+		texts = append(texts, "\u017f", "\u212a", "é", "")
+		texts = append(texts, rxref.Words([]string{"k", "K", "s", "S"}, 2)...)
+		var fin []input
+		for _, t := range texts {
+			fin = append(fin, input{text: t, syms: [2][]rxref.Sym{rxref.Decode(t, false), rxref.Decode(t, true)}})
+		}
+		ck2 := &checker{inputs: fin, report: ck.report}
+		w := <-pool
+		n := 0
+		for _, bytesMode := range []bool{false, true} {
+			for _, fold := range []bool{false, true} {
+				var sets [][]ruleSpec
+				for ch := 'A'; ch <= 'Z'; ch++ {
+					for _, r := range []rune{ch, ch + 32} {
+						lit := rxref.Lit(r)
+						cls := rxref.Class(false, [2]rune{r, r})
+						sets = append(sets, []ruleSpec{{AST: lit, SC: []int{0}}}, []ruleSpec{{AST: cls, SC: []int{0}}},
+							[]ruleSpec{{AST: rxref.Cat(lit, lit), Prio: 1, SC: []int{0}}, {AST: rxref.Rep(rxref.Class(false, [2]rune{'a', 'z'}), 1, -1), SC: []int{0}}})
+					}
+				}
+				sets = append(sets, []ruleSpec{{AST: rxref.Rep(rxref.Class(false, [2]rune{'a', 'z'}), 1, -1), SC: []int{0}}},
+					[]ruleSpec{{AST: rxref.Rep(rxref.Class(false, [2]rune{'A', 'Z'}), 1, -1), SC: []int{0}}})
+				md, err := w.mode(bytesMode, fold)
+				if err != nil {
+					continue
+				}
+				for _, rules := range sets {
+					for i := range rules {
+						rules[i].Pattern = md.text(rules[i].AST)
+					}
+					ck2.checkRuleSet(w, &ruleSet{Bytes: bytesMode, Fold: fold, Rules: rules}, nil, -1)
+					n++
+				}
+			}
+		}
+		w.stats.addTo(c)
+		pool <- w
+		c.Set("letter_family_rule_sets", n)
+	}
+
 	var levelInfo []string
 	stopped := false
 	for _, lv := range levels(c.Quick()) {
